@@ -288,18 +288,20 @@ impl<'a> Cx<'a> {
     }
 
     /// methods of a raw vector: the translated functions of `impl StackVec` (`self` first)
-    pub fn lower_method_raw(&mut self, m: &syn::ExprMethodCall) -> R<Val> {
+    pub fn lower_method_raw(&mut self, m: &syn::ExprMethodCall, owner: &str) -> R<Val> {
         let sp = m.span();
-        self.raw_check(sp)?;
+        if owner == "StackVec" {
+            self.raw_check(sp)?;
+        }
         let name = m.method.to_string();
         if name == "as_ptr" || name == "as_mut_ptr" {
             return err(sp, "a raw pointer is only supported as the argument of a `ptr::` / `slice::` primitive or bound by `let`");
         }
-        let key = format!("StackVec::{}", name);
+        let key = format!("{}::{}", owner, name);
         let fi = match self.g.get_fn(&self.file, &key) {
             Some(f) => f.clone(),
             None if self.g.is_omitted(&self.file, &key) => return err(sp, format!("calls `{}`, which was omitted", key)),
-            None => return err(sp, format!("method `{}` of the raw vector is not translated", key)),
+            None => return err(sp, format!("method `{}` is not translated", key)),
         };
         self.needs.union(fi.needs);
         let recv = &*m.receiver;
@@ -337,6 +339,7 @@ pub fn raw_call_key(cx: &Cx, p: &syn::Path) -> String {
     let s = path_str(p);
     match (s.strip_prefix("Self::"), cx.self_kind.as_deref()) {
         (Some(rest), Some("StackVec")) => format!("StackVec::{}", rest),
+        (Some(rest), Some("HeapVec")) => format!("HeapVec::{}", rest),
         _ => s,
     }
 }
